@@ -24,7 +24,12 @@ Inductive xc : Type :=
 | XTimeout          (* socket.timeout *)
 | XSSLTimeout       (* ssl.SSLError('The read operation timed out') *)
 | XSSLOther         (* any other ssl.SSLError *)
-| XBase.            (* BaseException but not Exception: SystemExit, KeyboardInterrupt, ... *)
+| XBase             (* BaseException but not Exception: SystemExit, KeyboardInterrupt, ... *)
+| XP (e p : exn).   (* like XE e, and the traceback passes through a frame whose `self`/`cls` object has an attribute
+                       whose getter raises p when inspected (a property of the faulty plugin) *)
+
+(* the class of an exception, for isinstance *)
+Definition class_of (x : xc) : xc := match x with XP e _ => XE e | _ => x end.
 
 Definition cls := gen.T07.cls.
 
@@ -33,7 +38,8 @@ Definition exn_sub (e' e : exn) : bool :=
   exn_eqb e' e || (exn_eqb e ValueError && (exn_eqb e' MalformedIrcMsg || exn_eqb e' UnicodeError)).
 
 (* isinstance(x, c) for an except clause c *)
-Definition matches (c : cls) (x : xc) : bool :=
+Definition matches (c : cls) (x0 : xc) : bool :=
+  let x := class_of x0 in
   match c with
   | gen.T07.CBare => true
   | gen.T07.CException => match x with XBase => false | _ => true end
@@ -122,11 +128,26 @@ Definition through_try (cs : list cls) (x : option xc) : option xc :=
   | Some e => if caught cs e then None else Some e
   end.
 
+(* log.Logger.exception calls utils.python.collect_extra_debug_data() (eagerly, as an argument of self.debug): it
+   walks the frames of the traceback being handled and getattr()s every dir() name of their `self`/`cls` objects, under
+   the except clauses gen.T07.HELPER_GETATTR_CATCHES.  A getter exception those do not catch leaves the helper, hence
+   the handler; its own traceback again passes through that object. *)
+Definition helper_raises (x : xc) : option xc :=
+  match x with
+  | XP _ p => if caught gen.T07.HELPER_GETATTR_CATCHES (XE p) then None else Some (XP p p)
+  | _ => None
+  end.
+
+(* what the log call of the handler at [site] does while handling x: None = returns *)
+Definition handler_outcome (site : N) (x : xc) : option xc :=
+  if site_raises site then Some (XE ValueError)
+  else if mem site gen.T07.EXCEPTION_SITES then helper_raises x else None.
+
 (* a try/except whose handler logs (site) and goes on: the handler itself may raise *)
 Definition through_try_at (site : N) (cs : list cls) (x : option xc) : option xc :=
   match x with
   | None => None
-  | Some e => if caught cs e then (if site_raises site then Some (XE ValueError) else None) else Some e
+  | Some e => if caught cs e then handler_outcome site e else Some e
   end.
 
 (* log.firewall(f) with log.testing = False: `except Exception` (the table) logs (site 2) and swallows *)
@@ -548,8 +569,10 @@ Definition drivers_run (ms : mstate) (rv : recv) : mstate :=
         if caught gen.T07.RUN_CATCHES e
         then
           (* log.exception('Uncaught exception in in drivers.run:') comes first in the handler *)
-          if site_raises 1 then MS b' p' true true (Some e :: escapes ms)
-          else MS b' p' false false (Some e :: escapes ms)      (* _deadDrivers.add(name); del _drivers[name] *)
+          match handler_outcome 1 e with
+          | Some _ => MS b' p' true true (Some e :: escapes ms)
+          | None => MS b' p' false false (Some e :: escapes ms)  (* _deadDrivers.add(name); del _drivers[name] *)
+          end
         else MS b' p' true true (Some e :: escapes ms)
     end
   else ms.
@@ -612,7 +635,7 @@ Definition xc_of_code (c : N) : option xc :=
 Definition code_of_xc (x : option xc) : N :=
   match x with
   | None => 0 | Some (XE e) => Z.to_N (exn_code e) | Some XOSError => 20 | Some XTimeout => 21
-  | Some XSSLTimeout => 22 | Some XSSLOther => 23 | Some XBase => 24
+  | Some XSSLTimeout => 22 | Some XSSLOther => 23 | Some XBase => 24 | Some (XP e _) => Z.to_N (exn_code e)
   end.
 
 Definition clog : Type := list (list N).     (* the test plugin's log, newest first *)
@@ -630,20 +653,26 @@ Definition row_res (r : list N) (s : clog) : hres clog :=
 Definition c_handler (rows : list (list N)) (n : N) (_ : msg) (s : clog) : hres clog :=
   row_res (find_row n rows) s.
 
-Definition c_cb (i : N) (in_rows call_rows : list (list N)) (trig code : N) : cb clog :=
+(* a callback object with a poisoned attribute (poison <> 0): whatever it raises carries it in its traceback *)
+Definition poisoned (poison : N) (r : hres clog) : hres clog :=
+  match h_exc r with
+  | Some (XE e) => if N.eqb poison 0 then r else HR (h_st r) (h_reconn r) (Some (XP e (exn_of_code poison)))
+  | _ => r
+  end.
+Definition c_cb (i : N) (in_rows call_rows : list (list N)) (trig code poison : N) : cb clog :=
   CB (fun n _ s => let r := find_row n in_rows in
-                   (row_res r ([1; n; i] :: s), match r with [_; _; _; k] => negb (N.eqb k 0) | _ => true end))
-     (fun n _ s => row_res (find_row n call_rows) ([2; n; i] :: s))
+                   (poisoned poison (row_res r ([1; n; i] :: s)), match r with [_; _; _; k] => negb (N.eqb k 0) | _ => true end))
+     (fun n _ s => poisoned poison (row_res (find_row n call_rows) ([2; n; i] :: s)))
      (fun a s => let hit := negb (N.eqb code 0) &&
                             (N.eqb trig 0 || match a with c :: _ => N.eqb c trig | [] => false end) in
-                 HR ((3 :: i :: a) :: s) false (if hit then xc_of_code code else None)).
+                 poisoned poison (HR ((3 :: i :: a) :: s) false (if hit then xc_of_code code else None))).
 
 Fixpoint c_cbs (i : N) (l : list value) : list (cb clog) :=
   match l with
   | [] => []
   | v :: l' =>
       c_cb i (map (map gN) (map gL (gL (nth_v 0 v)))) (map (map gN) (map gL (gL (nth_v 1 v))))
-           (gN (nth_v 0 (nth_v 2 v))) (gN (nth_v 1 (nth_v 2 v))) :: c_cbs (i + 1) l'
+           (gN (nth_v 0 (nth_v 2 v))) (gN (nth_v 1 (nth_v 2 v))) (gN (nth_v 3 v)) :: c_cbs (i + 1) l'
   end.
 
 Definition g_recv (v : value) : recv :=
